@@ -328,33 +328,45 @@ def _unroll(model: Model, fi: FuncInfo) -> FuncInfo:
     if isinstance(fi.node, ast.Lambda):
         return fi
     body = list(fi.node.body)
-    new_body: List[ast.stmt] = []
     changed = False
-    body, ch0 = _sink_tail(body)
-    changed = changed or ch0
+
+    def tables(stmts: List[ast.stmt]) -> Tuple[List[ast.stmt], bool]:
+        """first-match dispatch over literal tables, read as the if-chain it abbreviates"""
+        out_: List[ast.stmt] = []
+        ch_ = False
+        i = 0
+        while i < len(stmts):
+            s = stmts[i]
+            nxt = stmts[i + 1] if i + 1 < len(stmts) else None
+            rep = _match(model, fi, s, nxt)
+            if rep is not None:
+                out_.extend(rep)
+                ch_ = True
+                i += 2
+                continue
+            rep = _match_inline_loop(model, fi, s)
+            if rep is not None:
+                out_.extend(rep)
+                ch_ = True
+                i += 1
+                continue
+            out_.append(s)
+            i += 1
+        return out_, ch_
+
+    # table dispatch first (its pattern is two adjacent statements), then the re-shaping passes, then tables once more
+    # for what the inlined helpers brought in
+    body, ch = tables(body)
+    changed = changed or ch
+    body, ch = _sink_tail(body)
+    changed = changed or ch
     for _ in range(2):
         body, ch = _inline_returned_helpers(model, fi, body)
         if not ch:
             break
         changed = True
-    i = 0
-    while i < len(body):
-        s = body[i]
-        nxt = body[i + 1] if i + 1 < len(body) else None
-        rep = _match(model, fi, s, nxt)
-        if rep is not None:
-            new_body.extend(rep)
-            changed = True
-            i += 2
-            continue
-        rep = _match_inline_loop(model, fi, s)
-        if rep is not None:
-            new_body.extend(rep)
-            changed = True
-            i += 1
-            continue
-        new_body.append(s)
-        i += 1
+        body, ch2 = tables(body)
+    new_body = body
     if not changed:
         return fi
     fn = ast.FunctionDef(name=fi.node.name, args=clone_ast(fi.node.args), body=[clone_ast(x) if not getattr(x, "_fresh", False) else x for x in new_body], decorator_list=[], returns=None, type_comment=None, type_params=[])
